@@ -5,4 +5,6 @@ import CnbVerif.Props.C10
 #print axioms CnbVerif.C10.no_implicit_paths_for_all_and_process
 #print axioms CnbVerif.C10.implicit_table_facts
 #print axioms CnbVerif.C10.implicit_entries_never_written
+#print axioms CnbVerif.C10.read_write_cycle_invariant
 #print axioms CnbVerif.C10.read_write_cycle
+#print axioms CnbVerif.C10.read_write_cycles
